@@ -38,6 +38,14 @@ def instances(tier):
         for d in range(0, 2 ** n + 1):
             out.append((f"PCPhase[n={n},dim={d}]", qp.PCPhase, 1,
                         lambda ps, d=d, n=n: qp.PCPhase(ps[0], d, wires=list(range(n))), False))
+    # controlled versions through qp.ctrl (legacy Controlled and ControlledOp2 compute their frequencies from the base generator)
+    for name in FIXED:
+        npar, nw, _ = G.REF[name]
+        if npar == 1 and nw <= 2:
+            cls = getattr(qp, name)
+            for cv in ([1], [0]):
+                out.append((f"ctrl({name},cv={cv[0]})", cls, 1,
+                            lambda ps, cls=cls, nw=nw, cv=cv: qp.ctrl(cls(ps[0], wires=list(range(nw))), control=[nw], control_values=cv), False))
     out.append(("GlobalPhase", qp.GlobalPhase, 1, lambda ps: qp.GlobalPhase(ps[0]), False))
     out.append(("CPhase", qp.CPhase, 1, lambda ps: qp.CPhase(ps[0], wires=[0, 1]), True))
     return out
